@@ -22,7 +22,7 @@ BUDGET = {"quick": 420, "thorough": 2400}
 def bounds(tier):
     if tier == "quick":
         return ("plain: ordered shapes <=3 jobs <=4 ops, all assignments M<=2; flexible M<=2 on <=3 ops; reset: shapes <=3 ops + (2,2) M<=2 "
-                "(incl. flexible <=2 ops); env: shapes <=3 ops M<=2 non-flexible and flexible <=2 ops, both reward classes; all histories")
+                "(incl. flexible <=2 ops) and 4 ops up to renaming; plain also on 5 ops M<=3 up to renaming; env: shapes <=3 ops M<=2 non-flexible and flexible <=2 ops, both reward classes; all histories")
     return "quick + 5 ops and (2,2,2),(3,3),(3,2,1),(4,2) M<=3 up to renaming (plain); reset and env on <=4 ops; flexible on 4 ops"
 
 
@@ -38,9 +38,10 @@ def subspaces(tier):
     for rw in ("makespan", "idle"):
         out += C.structure_subspaces(s3 if tier == "quick" else s4, 2, False, mode="env", reward=rw)
         out += C.structure_subspaces(s2 if tier == "quick" else s3, 2, True, only_flexible=True, mode="env", reward=rw)
+    out += C.structure_subspaces([s for s in D.shapes(3, 5) if sum(s) == 5], 3, False, canonical=True, mode="plain")
+    out += C.structure_subspaces([s for s in s4 if sum(s) == 4], 2, False, canonical=True, mode="reset")
     if tier == "thorough":
         out += C.structure_subspaces([s for s in s4 if sum(s) == 4], 2, True, only_flexible=True, mode="plain")
-        out += C.structure_subspaces([s for s in D.shapes(3, 5) if sum(s) == 5], 3, False, canonical=True, mode="plain")
         out += C.structure_subspaces([(2, 2, 2), (3, 3), (3, 2, 1), (4, 2)], 3, False, canonical=True, mode="plain")
     return out
 
